@@ -311,6 +311,10 @@ impl TheDrawFont {
         for glyph in &self.char_table {
             match glyph {
                 Some(glyph) => {
+                    // glyph offsets are 16 bit and 0xFFFF marks an undefined glyph
+                    if font_data.len() >= 0xFFFF {
+                        return Err(TdfError::DataOverflow(font_data.len()).into());
+                    }
                     char_lookup_table.extend(u16::to_le_bytes(font_data.len() as u16));
                     font_data.push(glyph.size.width as u8);
                     font_data.push(glyph.size.height as u8);
@@ -319,6 +323,9 @@ impl TheDrawFont {
                 }
                 None => char_lookup_table.extend(u16::to_le_bytes(0xFFFF)),
             }
+        }
+        if font_data.len() > 0xFFFF {
+            return Err(TdfError::DataOverflow(font_data.len()).into());
         }
         result.extend(u16::to_le_bytes(font_data.len() as u16));
         result.extend(char_lookup_table);
